@@ -10,6 +10,7 @@ CHILD = r'''
 import sys, json, os, io, builtins, pathlib, shutil, warnings, ast
 warnings.filterwarnings('ignore')
 root, module, case, crash = sys.argv[1], sys.argv[2], sys.argv[3], json.loads(sys.argv[4])
+phase = int(sys.argv[5]) if len(sys.argv) > 5 else 1
 data_root = os.path.join(root, 'data')
 seen = {}
 
@@ -119,15 +120,15 @@ from sx import replay
 replay.MODE['replay'] = True
 replay.MODE['tmp'] = root
 mod = importlib.import_module(module)
-mod.crash_child(root, ast.literal_eval(case))
+mod.crash_child(root, ast.literal_eval(case), phase)
 os._exit(0)
 '''
 
 
-def run_crashing(root, module, case_repr, crash):
+def run_crashing(root, module, case_repr, crash, phase=1):
     """Run the faulted request of `module` in a child that dies at `crash`; returns the child's exit status."""
     env = dict(os.environ)
-    p = subprocess.run([sys.executable, '-c', CHILD, root, module, case_repr, json.dumps(crash)], env=env,
+    p = subprocess.run([sys.executable, '-c', CHILD, root, module, case_repr, json.dumps(crash), str(phase)], env=env,
                        capture_output=True, text=True, timeout=300)
     if p.returncode not in (0, 70):
         print('crash child failed:', p.returncode, (p.stdout + p.stderr)[-1500:])
